@@ -207,7 +207,9 @@ func methods() []method {
 	}
 	return []method{
 		{"/v1.Lister/ListAccounts", func(w string) proto.Message { return &pb.ListAccountsRequest{Paths: []string{w}} }, func() proto.Message { return &pb.ListAccountsResponse{} },
-			func(m proto.Message) string { return fmt.Sprintf("%s:%d", m.(*pb.ListAccountsResponse).GetState(), len(m.(*pb.ListAccountsResponse).GetAccounts())) }},
+			func(m proto.Message) string {
+				return fmt.Sprintf("%s:%d", m.(*pb.ListAccountsResponse).GetState(), len(m.(*pb.ListAccountsResponse).GetAccounts()))
+			}},
 		{"/v1.Signer/Sign", func(w string) proto.Message {
 			return &pb.SignRequest{Id: &pb.SignRequest_Account{Account: w + "/Account 0"}, Data: r32(1), Domain: dom(2)}
 		}, func() proto.Message { return &pb.SignResponse{} }, signSum},
@@ -228,7 +230,9 @@ func methods() []method {
 		}, func() proto.Message { return &pb.SignResponse{} }, signSum},
 		{"/v1.AccountManager/Lock", func(w string) proto.Message { return &pb.LockAccountRequest{Account: w + "/Account 5"} }, func() proto.Message { return &pb.LockAccountResponse{} },
 			func(m proto.Message) string { return m.(*pb.LockAccountResponse).GetState().String() }},
-		{"/v1.AccountManager/Unlock", func(w string) proto.Message { return &pb.UnlockAccountRequest{Account: w + "/Account 5", Passphrase: []byte("pass")} }, func() proto.Message { return &pb.UnlockAccountResponse{} },
+		{"/v1.AccountManager/Unlock", func(w string) proto.Message {
+			return &pb.UnlockAccountRequest{Account: w + "/Account 5", Passphrase: []byte("pass")}
+		}, func() proto.Message { return &pb.UnlockAccountResponse{} },
 			func(m proto.Message) string { return m.(*pb.UnlockAccountResponse).GetState().String() }},
 		{"/v1.AccountManager/Generate", func(w string) proto.Message {
 			return &pb.GenerateRequest{Account: fmt.Sprintf("%s/Gen %d", w, time.Now().UnixNano()), Passphrase: []byte("pass"), Participants: 1, SigningThreshold: 1}
@@ -241,7 +245,9 @@ func methods() []method {
 			return &pb.PrepareRequest{Account: "Wallet 3/tls " + w, Threshold: 2, Participants: []*pb.Endpoint{{Id: 1, Name: "signer-test01", Port: 1}, {Id: 2, Name: "signer-test02", Port: 2}}}
 		}, func() proto.Message { return &emptypb.Empty{} }, func(proto.Message) string { return "OK" }},
 		{"/v1.DKG/Execute", func(w string) proto.Message { return &pb.ExecuteRequest{Account: "Wallet 3/none"} }, func() proto.Message { return &emptypb.Empty{} }, func(proto.Message) string { return "OK" }},
-		{"/v1.DKG/Commit", func(w string) proto.Message { return &pb.CommitRequest{Account: "Wallet 3/none", ConfirmationData: r32(1)} }, func() proto.Message { return &pb.CommitResponse{} }, func(proto.Message) string { return "OK" }},
+		{"/v1.DKG/Commit", func(w string) proto.Message {
+			return &pb.CommitRequest{Account: "Wallet 3/none", ConfirmationData: r32(1)}
+		}, func() proto.Message { return &pb.CommitResponse{} }, func(proto.Message) string { return "OK" }},
 		{"/v1.DKG/Abort", func(w string) proto.Message { return &pb.AbortRequest{Account: "Wallet 3/tls " + w} }, func() proto.Message { return &emptypb.Empty{} }, func(proto.Message) string { return "OK" }},
 		{"/v1.DKG/Contribute", func(w string) proto.Message { return &pb.ContributeRequest{Account: "Wallet 3/none", Secret: r32(1)} }, func() proto.Message { return &pb.ContributeResponse{} }, func(proto.Message) string { return "OK" }},
 	}
